@@ -116,7 +116,10 @@ def run(chk, repo: Repo):
     chk.rule("C20-R7", "results of memoised (lru_cache) builders are never written into by their callers (a shared stencil patched for one boundary "
                        "condition would change every operator built from the same cache entry)", floor=1)
     from ..memo import memo_rule
-    memo_rule(chk, repo, "C20-R7", ("cuqi/operator/", "cuqi/distribution/", "cuqi/geometry/", "cuqi/utilities/"))
+    from ..memo import handout_methods, keyed_cache_rule
+    keyed_cache_rule(chk, repo, "C20-R7", ("cuqi/operator/", "cuqi/distribution/", "cuqi/geometry/"))
+    memo_rule(chk, repo, "C20-R7", ("cuqi/operator/", "cuqi/distribution/", "cuqi/geometry/", "cuqi/utilities/"),
+              handouts=handout_methods(repo, [(f"{OP}:Operator", "get_matrix")]))
     chk.rule("C20-R1", "precision matrix = (D.T @ D) of the same stored difference operator", floor=1)
     chk.rule("C20-R2", "GMRF/LMRF/CMRF densities apply the operator to x minus the location/mean", floor=4)
     chk.rule("C20-R3", "boundary-condition literals: GMRF ⊆ both operator classes; sampling branch per literal; LMRF/CMRF forward bc_type", floor=4)
